@@ -23,6 +23,9 @@ type FuncResult struct {
 func (e *Engine) VerifyFunc(key string) (res *FuncResult) {
 	fi := e.funcs[key]
 	res = &FuncResult{Key: key}
+	if ct := e.db.Funcs[key]; ct != nil && ct.Kind == "lemma" {
+		fi = &FuncInfo{Key: key, Pkg: e.pkg}
+	}
 	if fi == nil {
 		res.Err = "UNBOUND: function " + key + " not found in the source tree"
 		return
@@ -37,8 +40,12 @@ func (e *Engine) VerifyFunc(key string) (res *FuncResult) {
 		}
 	}()
 	for attempt := 0; attempt < 6; attempt++ {
-		x := &Exec{e: e, vc: NewVC(key), top: fi, trusted: map[string]bool{}, pendingMods: map[string]bool{}, setofMemo: map[string]string{}, anchorHits: map[string]int{}, storeInfo: map[string][2]string{}}
-		x.run(fi)
+		x := &Exec{e: e, vc: NewVC(key), top: fi, trusted: map[string]bool{}, pendingMods: map[string]bool{}, setofMemo: map[string]string{}, anchorHits: map[string]int{}, storeInfo: map[string][2]string{}, freshRefs: map[string]int{}}
+		if fi.Decl == nil {
+			x.runLemma(fi, e.db.Funcs[key])
+		} else {
+			x.run(fi)
+		}
 		res.Restarts = attempt
 		if !x.newKeys && len(x.pendingMods) == 0 {
 			x.finalizeObls()
@@ -88,9 +95,7 @@ func (x *Exec) run(fi *FuncInfo) {
 					continue
 				}
 				v := x.freshVal(n.Name, obj.Type())
-				if v.K == KInt && isRefType(obj.Type()) {
-					x.allocated(st, v.S)
-				}
+				x.wellFormed(st, v)
 				x.declareVar(st, obj, v)
 			}
 		}
@@ -121,6 +126,24 @@ func (x *Exec) run(fi *FuncInfo) {
 		if ct.Flags["inv"] && fr.recv != nil {
 			x.assumeInv(st, fr.recv)
 		}
+	}
+	x.vc.regionEval = func(src string) (out string, err error) {
+		defer func() {
+			if r := recover(); r != nil {
+				err = fmt.Errorf("%v", r)
+			}
+		}()
+		ce, perr := ParseCExpr(src)
+		if perr != nil {
+			return "", perr
+		}
+		pre := x.firstSec
+		if pre == nil {
+			pre = fr.entry
+		}
+		env := x.funcEnv(fr, pre, nil)
+		env.old = pre
+		return x.cevalBool(ce, env, nil), nil
 	}
 	// entry reachability (vacuity guard)
 	x.oblige(st, fi.Key+".$entry-sat", "vacuity", fi.Decl.Pos(), "requires/assumptions are satisfiable", "false")
@@ -236,4 +259,57 @@ func (x *Exec) anchorsBefore(kind, text string, at ast.Node, st *State, v *Val) 
 		}
 		st.Assume(g)
 	}
+}
+
+// runLemma checks a lemma item: parameters are arbitrary values; `val` clauses are evaluated in
+// order (calls to Go functions apply the callee's contract); `ensures` clauses are obligations.
+func (x *Exec) runLemma(fi *FuncInfo, ct *FuncContract) {
+	st := &State{vars: map[types.Object]*Val{}, cells: map[types.Object]string{}, heap: map[string]string{}}
+	x.materialize(st)
+	x.heapGet(st, allocKey, SInt)
+	x.vc.Fact("(> " + baseSym(allocKey) + " 0)")
+	fr := &Frame{fi: fi, info: x.e.pkg.TypesInfo, contract: ct, cutIdx: map[ast.Node]int{}, loopIdx: map[ast.Node]int{}, extra: map[string]*Val{}}
+	x.frame = fr
+	nb := new(int)
+	*nb = 900000
+	env := &CEnv{x: x, st: st, names: map[string]*Val{}, lets: map[string]*CExpr{}, nbound: nb, allowCalls: true}
+	for i, p := range ct.Params {
+		t := x.resolveTypeName(ct.PTypes[i])
+		if t == nil && ct.PTypes[i] != "int" {
+			panic("lemma " + ct.Key + ": unknown parameter type " + ct.PTypes[i])
+		}
+		v := x.freshVal(p, t)
+		x.wellFormed(st, v)
+		env.names[p] = v
+	}
+	env.entry = st.Snapshot()
+	env.old = env.entry
+	for _, c := range ct.Clauses {
+		switch c.Kind {
+		case "let":
+			env.lets[c.Name] = c.Expr
+		case "requires", "assume":
+			st.Assume(x.cevalBool(c.Expr, env, c))
+		case "val":
+			func() {
+				defer func() {
+					if r := recover(); r != nil {
+						if ce, ok := r.(cevalError); ok {
+							panic(fmt.Sprintf("contract error: %s (contract line %d)", ce.msg, c.Line))
+						}
+						panic(r)
+					}
+				}()
+				env.names[c.Name] = x.ceval(c.Expr, env)
+			}()
+		case "ensures":
+			g := x.cevalBool(c.Expr, env, c)
+			lab := c.Label
+			if lab == "" {
+				lab = fmt.Sprintf("post%d", c.Line)
+			}
+			x.oblige(st, ct.Key+"."+lab, "lemma", 0, c.Src, g)
+		}
+	}
+	x.oblige(st, ct.Key+".$entry-sat", "vacuity", 0, "lemma hypotheses are satisfiable", "false")
 }
